@@ -638,10 +638,15 @@ func (in *instr) stmt(s ast.Stmt, withY bool) []ast.Stmt {
 		}
 
 	case *ast.SendStmt:
+		// a blocked send panics when the channel gets closed: the gate must be passed on that
+		// path too, so the send runs in a closure whose deferred call is the gate
 		in.exprs(st)
 		tk := in.tmp("tk")
 		pre = append(pre, &ast.AssignStmt{Lhs: []ast.Expr{tk}, Tok: token.DEFINE, Rhs: []ast.Expr{simCall("B", in.site(pos, "send"))}})
-		post = append(post, &ast.ExprStmt{X: simCall("U", tk)})
+		main = &ast.ExprStmt{X: &ast.CallExpr{Fun: &ast.FuncLit{Type: &ast.FuncType{Params: &ast.FieldList{}}, Body: &ast.BlockStmt{List: []ast.Stmt{
+			&ast.DeferStmt{Call: simCall("U", tk)},
+			st,
+		}}}}}
 		hasOwnYield = true
 
 	case *ast.IncDecStmt:
@@ -895,6 +900,20 @@ func (in *instr) selectStmt(st *ast.SelectStmt, withY bool) []ast.Stmt {
 	}
 	tk := in.tmp("tk")
 	pre = append(pre, &ast.AssignStmt{Lhs: []ast.Expr{tk}, Tok: token.DEFINE, Rhs: []ast.Expr{simCall("B", in.site(pos, "select"))}})
+	hasSend, hasDefault := false, false
+	for _, c := range st.Body.List {
+		cc := c.(*ast.CommClause)
+		if cc.Comm == nil {
+			hasDefault = true
+		}
+		if _, ok := cc.Comm.(*ast.SendStmt); ok {
+			hasSend = true
+		}
+	}
+	if hasSend && !hasDefault {
+		// a blocked send case panics when its channel gets closed, skipping the clause bodies
+		pre = append(pre, &ast.DeferStmt{Call: simCall("UP", tk)})
+	}
 	for _, c := range st.Body.List {
 		cc := c.(*ast.CommClause)
 		body := in.list(cc.Body)
